@@ -4,10 +4,34 @@
 // IWYU pragma: friend "rlbox_.*\.hpp"
 
 #include <cstdint>
+#include <limits>
+#include <type_traits>
 
 #include "rlbox_types.hpp"
 
 namespace rlbox::detail {
+
+// Checks that scaling an element count (of any integer type, possibly
+// negative) by an element size cannot wrap around when computed in uintptr_t
+template<typename T_Count>
+inline constexpr bool scaled_offset_does_not_wrap(T_Count count,
+                                                  size_t element_size)
+{
+  static_assert(std::is_integral_v<T_Count>);
+  if constexpr (std::is_same_v<std::remove_cv_t<T_Count>, bool>) {
+    return true;
+  } else {
+    using T_Unsigned = std::make_unsigned_t<T_Count>;
+    const auto magnitude =
+      count >= 0 ? static_cast<T_Unsigned>(count)
+                 : static_cast<T_Unsigned>(T_Unsigned(0) -
+                                           static_cast<T_Unsigned>(count));
+    // keep the scaled offset below half the address space, so that a negative
+    // count is not mistaken for a large positive one and vice versa
+    return magnitude <=
+           (std::numeric_limits<uintptr_t>::max() / 2) / element_size;
+  }
+}
 
 // Checks that a given range is either entirely in a sandbox or entirely
 // outside
